@@ -101,7 +101,10 @@ Spellings(T, v) ==
                   THEN {[den |-> "nothing", lit |-> [c EXCEPT !.v = MaxOf(T.t) + 1], why |-> "above_max"],
                         [den |-> "nothing", lit |-> [c EXCEPT !.v = MaxOf(T.t) + 45], why |-> "above_max"]}
                        \cup (IF IsSigned(T.t) THEN {[den |-> "nothing", lit |-> [c EXCEPT !.v = MinOf(T.t) - 1], why |-> "below_min"]} ELSE {})
-                  ELSE {})
+                  ELSE \* wide types: TLC integers are 32-bit, so the literal carries an offset relative to the type's bound ("max": max + v,
+                       \* "min": min - v); the harness resolves it (and skips it where the host representation cannot hold the number)
+                       {[den |-> "nothing", lit |-> [k |-> c.k, v |-> d, t |-> T.t, rel |-> "max"], why |-> "above_max"] : d \in {1, 6}}
+                       \cup (IF IsSigned(T.t) THEN {[den |-> "nothing", lit |-> [k |-> c.k, v |-> 1, t |-> T.t, rel |-> "min"], why |-> "below_min"]} ELSE {}))
             \cup {[den |-> "nothing", lit |-> [k |-> IF v = 0 THEN "false" ELSE "true"], why |-> "bool_for_number"]}
       [] T.k = "arr" ->
             {[den |-> "nothing", lit |-> [c EXCEPT !.es = Append(@, IF T.n = 0 THEN Canon(T.e, CHOOSE x \in Vals(T.e) : TRUE) ELSE @[1])], why |-> "too_long"]}
